@@ -43,8 +43,24 @@ pub fn valid_sigs(gnss: &str) -> Vec<(u8, char)> {
     v
 }
 
+/// value-tree image of a signal descriptor, in whatever serde representation the library gives its SigId types
+/// (all constellations' SigId types come from one macro and share it)
 pub fn sig_v(band: u8, attr: char) -> V {
-    V::TupleStruct("SigId".into(), vec![V::u(8, band as u64), V::Char(attr)])
+    crate::value::to_v(&GpsSigId::new(band, attr)).unwrap_or_else(|_| V::TupleStruct("SigId".into(), vec![V::u(8, band as u64), V::Char(attr)]))
+}
+
+/// (band, attribute) of a signal-descriptor node, independent of its serde representation; (-1, -1) if it is none
+pub fn sig_of(v: &V) -> (i64, i64) {
+    match v {
+        V::TupleStruct(_, xs) if xs.len() == 2 && xs[0].as_i128().is_some() && matches!(xs[1], V::Char(_)) => {
+            (xs[0].as_i128().unwrap_or(-1) as i64, if let V::Char(c) = xs[1] { c as i64 } else { -1 })
+        }
+        V::Newtype(_, x) => sig_of(x),
+        _ => match crate::value::from_v::<GpsSigId>(v.clone()) {
+            Ok(s) => (s.band() as i64, s.attribute() as i64),
+            Err(_) => (-1, -1),
+        },
+    }
 }
 
 pub struct MsmTemplates {
